@@ -90,7 +90,7 @@ Proof.
   destruct (str_eqb x i) eqn:E.
   - apply str_eqb_eq in E. subst i. rewrite !cset_cset. reflexivity.
   - assert (Hn : x <> i) by (intros ->; rewrite str_eqb_refl in E; discriminate).
-    rewrite (cset_swap_present (cset c x (VS e)) x i (VS e') (VS (enc_dec n)) (VS e) Hn (cget_cset_same _ _ _)).
+    rewrite (cset_swap_present (cset c x (VS e)) x i (VS e') (VI n) (VS e) Hn (cget_cset_same _ _ _)).
     rewrite !cset_cset. reflexivity.
 Qed.
 
@@ -136,12 +136,12 @@ Proof.
         destruct tol; intros H; inversion H; reflexivity.
     + assert (Hn : x <> i) by (intros ->; rewrite str_eqb_refl in E; discriminate).
       destruct (cget c x) as [v|] eqn:Ex; unfold crestore.
-      * rewrite (cset_swap_present (cset c x (VS e)) x i v (VS (enc_dec n)) (VS e) Hn (cget_cset_same _ _ _)).
+      * rewrite (cset_swap_present (cset c x (VS e)) x i v (VI n) (VS e) Hn (cget_cset_same _ _ _)).
         rewrite cset_cset, (cset_same _ _ _ Ex).
         destruct (cget c i) as [w|] eqn:Ei.
         -- rewrite cset_cset. intros H. inversion H; subst. apply cset_same. exact Ei.
         -- rewrite (cpop_cset_fresh _ _ _ Ei). intros H. inversion H; reflexivity.
-      * rewrite (cpop_cset2_fresh c x i (VS e) (VS (enc_dec n)) Hn Ex).
+      * rewrite (cpop_cset2_fresh c x i (VS e) (VI n) Hn Ex).
         destruct (cget c i) as [w|] eqn:Ei.
         -- rewrite cset_cset. intros H. inversion H; subst. apply cset_same. exact Ei.
         -- rewrite (cpop_cset_fresh _ _ _ Ei). intros H. inversion H; reflexivity.
